@@ -212,6 +212,19 @@ type dryRun struct {
 func NewExec(prog *Program, fn *ssa.Function, c *Contract) *Exec {
 	ex := &Exec{prog: prog, ts: NewTermStore(), root: fn, contract: c, obls: map[string]*Obligation{}, regionSorts: map[string]*Sort{}, arrFieldIdx: map[string]int{}, immutableGlobals: prog.Immutable, maxPaths: 20000, assumptions: map[string]bool{}, typeTags: map[string]int64{}, axiomSeen: map[int]bool{}, loopInfo: map[*ssa.Function]*loopAnalysis{}, siteSeq: map[string]int{}, sharedCells: map[*Cell]bool{}}
 	ex.bv = c != nil && c.Mode == "bv"
+	if c != nil {
+		if ab, ok := c.Options["allocbound"]; ok {
+			be, err := ParseExpr(ab)
+			if err != nil {
+				panic(unsupported{"allocbound: " + err.Error()})
+			}
+			ex.allocBound = func(ins ssa.Instruction, n *Term) {
+				fr := ex.st.frames[0]
+				bound := ex.evalInt(be, ex.envFor(fr, nil))
+				ex.oblige("alloc", ex.siteOf(ins, ""), ins.Pos(), "allocation is bounded by "+ab, ex.ts.Le(n, bound, true))
+			}
+		}
+	}
 	return ex
 }
 
@@ -334,6 +347,7 @@ func (ex *Exec) newFrame(fn *ssa.Function, args []Val, free []Val) *Frame {
 	for i, p := range fn.Params {
 		fr.regs[p] = args[i]
 		fr.params[p.Name()] = args[i]
+		fr.params[fmt.Sprintf("$%d", i)] = args[i]
 	}
 	for i, fv := range fn.FreeVars {
 		fr.regs[fv] = free[i]
@@ -461,7 +475,12 @@ func (ex *Exec) reg(fr *Frame, v ssa.Value) Val {
 	case *ssa.Const:
 		return ex.constVal(x)
 	case *ssa.Global:
-		return GlobalPtr{Name: globalName(x), Typ: x.Type().(*types.Pointer).Elem()}
+		gp := GlobalPtr{Name: globalName(x), Typ: x.Type().(*types.Pointer).Elem()}
+		if _, isArr := under(gp.Typ).(*types.Array); isArr {
+			l := ex.resolve(gp)
+			return RefPtr{Ref: ex.arrayRefAt(l, ""), Elem: gp.Typ}
+		}
+		return gp
 	case *ssa.Function:
 		return ClosureV{Fn: x, Typ: x.Type()}
 	case *ssa.Builtin:
@@ -832,6 +851,19 @@ func (ex *Exec) jump(fr *Frame, to *ssa.BasicBlock) {
 	if li, ok := la.heads[to.Index]; ok {
 		if ex.loopArrive(fr, from, to, li) {
 			return
+		}
+	}
+	// leaving a cut loop: exit assertions of that loop
+	if ex.dry == nil {
+		for _, li := range la.heads {
+			if li.body[from.Index] && !li.body[to.Index] && fr.cut[li.head.Index] {
+				if spec := ex.loopSpecFor(fr, li); spec != nil {
+					for i, a := range spec.After {
+						lname := fmt.Sprintf("%s.loop%d", relName(fr.fn), li.ordinal)
+						ex.oblige("loop-exit", fmt.Sprintf("%s:%03d", lname, i), li.pos, "holds when the loop exits: "+a.Text, ex.evalBool(a.E, ex.envFor(fr, nil)))
+					}
+				}
+			}
 		}
 	}
 	fr.prev = from
